@@ -3,7 +3,8 @@ import ScVerif.C06.Lemmas
 # C06 — reads return exactly the read-mask projection and never mutate
 
 Model: `ScVerif/C06/Get.lean` (`ResponseFilter.Validate / Filter / FilterClone` and `filterMessage`
-of pkg/masks/get.go after the fix a72a629, over fmutils' `NestedMaskFromPaths` and
+of pkg/masks/get.go after the fixes a72a629 (no panic) and 40c1599 (`nestedMask`: paths nested inside
+another path of the mask are dropped), over fmutils' `NestedMaskFromPaths` and
 `fieldmaskpb.IsValid` from `ScVerif/C05/Lib.lean`).  Specification: `project`, the projection of a
 message tree onto a *set of paths*, defined without nested masks and characterised path by path
 (`C06_project_selected`, `C06_project_unselected`).
@@ -15,10 +16,6 @@ monitor (deep copy before / after every read) and is C07's subject in the heap m
 namespace ScVerif.C06
 open ScVerif.C05
 
-/-- Every path has at least one segment (true of every path that comes from a string). -/
-def NonNil (ps : List Path) : Prop := ∀ p ∈ ps, p ≠ []
-instance (ps : List Path) : Decidable (NonNil ps) := by unfold NonNil; infer_instance
-
 /-- **Full strength (C06_no_panic).** No mask and no message make a read panic.  (Before a72a629
 the read called `fmutils.Filter`, which panics on a mask continuing through a populated map or
 repeated scalar; the check's monitor showed it with `repeated_int32.x` / `map_string_string.a`.) -/
@@ -29,39 +26,47 @@ theorem C06_no_panic (mask : Option (List Path)) (fs : Fields) : filterClone mas
   | some [] => simp [filter]
   | some (_ :: _) => simp [filter]
 
-/--
-Full-strength statement (false on this tree, see `C06_projection_fails`):
-  `∀ mask fs, paths well-formed → filterClone mask fs = some (projectMask mask fs)`.
-
-**Partial (C06_projection_partial).**  For every message and every mask whose paths are non-empty,
-have no empty segment and of which none is a proper prefix of another (duplicates allowed), the read
+/-- **C06_projection (full strength).**  For every message and every mask whose paths are non-empty
+and have no empty segment — in particular every mask that `Validate` accepts
+(`C06_valid_masks_are_proper`), parent+child paths, duplicates and overlaps included — the read
 returns exactly the projection onto the mask's path set; the nil mask returns the message, the
-empty mask the empty message. -/
-theorem C06_projection_partial (mask : Option (List Path)) (fs : Fields)
-    (h : ∀ ps, mask = some ps → NonNil ps ∧ Clean ps ∧ PrefixFree ps) :
+empty mask the empty message.  (Before 40c1599 this failed for `{f, f.c}`, which returned only
+`f.c`; see `C06_projection_legacy_fails`.) -/
+theorem C06_projection (mask : Option (List Path)) (fs : Fields)
+    (h : ∀ ps, mask = some ps → NonNil ps ∧ Clean ps) :
     filterClone mask fs = some (projectMask mask fs) := by
   unfold filterClone
   match mask, h with
   | none, _ => simp [filter, projectMask]
   | some [], _ => simp [filter, projectMask, project_nil_paths]
   | some (p :: ps), h =>
-    obtain ⟨hn, hc, hp⟩ := h _ rfl
-    have hne : (Mask.fromPaths (p :: ps)).isEmpty = false := by
-      rw [Mask.fromPaths_eq hc]
-      cases hh : (Mask.insertAll .nil (p :: ps)).isEmpty with
+    obtain ⟨hn, hc⟩ := h _ rfl
+    have hc' := clean_minimal hc
+    have hmne : minimal (p :: ps) ≠ [] := fun e => by
+      have := (minimal_eq_nil_iff _).mp e; cases this
+    have hne : (nestedMask (p :: ps)).isEmpty = false := by
+      unfold nestedMask
+      rw [Mask.fromPaths_eq hc']
+      cases hh : (Mask.insertAll .nil (minimal (p :: ps))).isEmpty with
       | false => rfl
       | true =>
-        have := (Mask.insertAll_nil_isEmpty _).mp hh p (List.mem_cons_self ..)
-        exact absurd this (hn p (List.mem_cons_self ..))
+        cases hm : minimal (p :: ps) with
+        | nil => exact absurd hm hmne
+        | cons q qs =>
+          have hq : q ∈ minimal (p :: ps) := by rw [hm]; exact List.mem_cons_self ..
+          have := (Mask.insertAll_nil_isEmpty _).mp hh q hq
+          exact absurd this (nonNil_minimal hn q hq)
     simp only [filter, safeMsg, hne, projectMask, Bool.false_eq_true, if_false]
-    rw [Mask.fromPaths_eq hc]
-    exact congrArg some (safeFields_eq_project fs (p :: ps) hp)
+    unfold nestedMask
+    rw [Mask.fromPaths_eq hc']
+    exact congrArg some ((safeFields_eq_project fs _ (prefixFree_minimal _)).trans (project_minimal fs _ hn))
 
-/-- **Witness (C06_projection_fails).**  The mask `{f, f.c}` (valid, and the same path set as `{f}`)
-returns only `f.c`: the projection keeps `f.d`, the read drops it. -/
-theorem C06_projection_fails :
+/-- **C06_projection_legacy_fails.**  The code before 40c1599 built the nested mask from the raw
+paths: with the mask `{f, f.c}` (the same path set as `{f}`) it returned only `f.c`, where the
+projection keeps `f.d`. -/
+theorem C06_projection_legacy_fails :
     ∃ (ps : List Path) (fs : Fields), NonNil ps ∧ Clean ps ∧
-      filterClone (some ps) fs ≠ some (project ps fs) :=
+      safeMsg (Mask.fromPaths ps) fs ≠ project ps fs :=
   ⟨[["f"], ["f", "c"]],
    .cons "f" (.msg (.cons "c" (.sc "i1") (.cons "d" (.sc "i2") .nil))) .nil,
    by decide, by decide, by decide⟩
@@ -78,16 +83,20 @@ theorem C06_project_unselected (ps : List Path) (fs : Fields) (p : Path) (hp : p
     (h : ∀ q ∈ ps, q ≠ [] → ¬ q <+: p ∧ ¬ p <+: q) : (project ps fs).getPath p = none :=
   getPath_project_unselected p ps fs hp h
 
-/-- **C06_read_selected.**  Consequence on the code's side: under the hypotheses of
-`C06_projection_partial`, a read returns at every selected path exactly the stored value. -/
+/-- **C06_read_selected.**  Consequence on the code's side: a read returns at every selected path
+exactly the stored value, and nothing at a path unrelated to every mask path. -/
 theorem C06_read_selected (ps : List Path) (fs r : Fields) (p : Path)
-    (hps : NonNil ps ∧ Clean ps ∧ PrefixFree ps) (hr : filterClone (some ps) fs = some r)
-    (h : ∃ q ∈ ps, q <+: p) : r.getPath p = fs.getPath p := by
-  have := C06_projection_partial (some ps) fs (fun ps' e => by cases e; exact hps)
+    (hps : NonNil ps ∧ Clean ps) (hr : filterClone (some ps) fs = some r) :
+    ((∃ q ∈ ps, q <+: p) → r.getPath p = fs.getPath p) ∧
+    (p ≠ [] → (∀ q ∈ ps, ¬ q <+: p ∧ ¬ p <+: q) → r.getPath p = none) := by
+  have := C06_projection (some ps) fs (fun ps' e => by cases e; exact hps)
   rw [hr] at this
   cases this
-  obtain ⟨q, hq, hpre⟩ := h
-  exact getPath_project_selected p ps fs ⟨q, hq, hps.1 q hq, hpre⟩
+  constructor
+  · rintro ⟨q, hq, hpre⟩
+    exact getPath_project_selected p ps fs ⟨q, hq, hps.1 q hq, hpre⟩
+  · intro hp h
+    exact getPath_project_unselected p ps fs hp (fun q hq _ => h q hq)
 
 /-- **C06_validate.**  `Validate` accepts a non-nil mask iff every path is well-formed for the
 message type: each segment names a field and only singular message fields are continued through —
@@ -104,18 +113,17 @@ theorem C06_validate (S : Schema) (ty : Nat) (mask : Option (List Path)) :
     · intro h p hp; exact (validPath_iff S ty p).mpr (h p hp)
 
 /-- **C06_valid_masks_are_proper.**  The side conditions `NonNil` and `Clean` of
-`C06_projection_partial` hold for every mask that `Validate` accepts. -/
+`C06_projection` hold for every mask that `Validate` accepts. -/
 theorem C06_valid_masks_are_proper (S : Schema) (hS : NoEmptyName S) (ty : Nat) (ps : List Path)
     (h : validate S ty (some ps) = true) : NonNil ps ∧ Clean ps := by
   have hg := (C06_validate S ty (some ps)).mp h ps rfl
   exact ⟨fun p hp => goodPath_ne_nil (hg p hp), fun p hp => goodPath_segments hS (hg p hp)⟩
 
-/-- **C06_projection_valid.**  Every validated, prefix-free read mask yields exactly the projection. -/
+/-- **C06_projection_valid.**  Every validated read mask yields exactly the projection. -/
 theorem C06_projection_valid (S : Schema) (hS : NoEmptyName S) (ty : Nat) (ps : List Path) (fs : Fields)
-    (hv : validate S ty (some ps) = true) (hp : PrefixFree ps) :
-    filterClone (some ps) fs = some (project ps fs) := by
-  have ⟨hn, hc⟩ := C06_valid_masks_are_proper S hS ty ps hv
-  exact C06_projection_partial (some ps) fs (fun ps' e => by cases e; exact ⟨hn, hc, hp⟩)
+    (hv : validate S ty (some ps) = true) :
+    filterClone (some ps) fs = some (project ps fs) :=
+  C06_projection (some ps) fs (fun ps' e => by cases e; exact C06_valid_masks_are_proper S hS ty ps hv)
 
 /-! ## Non-vacuity -/
 
@@ -128,9 +136,11 @@ def exMsg : Fields :=
   .cons "f" (.msg (.cons "c" (.sc "i1") (.cons "d" (.sc "i2") .nil)))
     (.cons "g" (.sc "i3") (.cons "r" (.scs ["i1"]) .nil))
 
-/-- The hypotheses of `C06_projection_partial` / `C06_projection_valid` are satisfiable by a nested mask. -/
-example : NonNil [["f", "c"], ["g"]] ∧ Clean [["f", "c"], ["g"]] ∧ PrefixFree [["f", "c"], ["g"]] := by
+/-- The hypotheses of `C06_projection` / `C06_projection_valid` are satisfiable, by parent+child masks too. -/
+example : NonNil [["f", "c"], ["g"], ["f"]] ∧ Clean [["f", "c"], ["g"], ["f"]] := by
   decide
+example : filterClone (some [["f", "c"], ["f"]]) exMsg
+    = some (.cons "f" (.msg (.cons "c" (.sc "i1") (.cons "d" (.sc "i2") .nil))) .nil) := by decide
 example : validate exSchema 0 (some [["f", "c"], ["g"]]) = true := by decide
 example : filterClone (some [["f", "c"], ["g"]]) exMsg
     = some (.cons "f" (.msg (.cons "c" (.sc "i1") .nil)) (.cons "g" (.sc "i3") .nil)) := by decide
